@@ -220,3 +220,9 @@ package cisco
 //vc:  nullable a
 //vc:  invariant[C18] 1 "for i, bName := range b.ref" true
 //vc:  assert[C18] at "isReferenced[refCmd] = true"#2 @rawObjectMergedOnce ab.b.isRaw ==> !((refCmd in isReferenced) && isReferenced[refCmd])
+
+// mergeSubCmds: a sub-command that exists only in the other part (raw / IPv6)
+// is adopted by the Netspoc command and must name it as its parent: an
+// incremental change of that sub-command is sent under the parent's name.
+//vc:func mergeSubCmds
+//vc:  assert[C18] after "bs.subCmdOf = a" @adoptedSubKnowsParent len(a.sub) > 0 && a.sub[len(a.sub)-1] == bs && bs.subCmdOf == a
